@@ -2,6 +2,7 @@
 """Prints the prompt given to an independent sub-agent asked to seed a property-breaking change."""
 import json, sys
 pid = sys.argv[1]; n = sys.argv[2] if len(sys.argv) > 2 else "2"
+first = int(sys.argv[3]) if len(sys.argv) > 3 else 1; last = first + int(n) - 1
 p = [json.loads(l) for l in open('/verif/properties.jsonl') if json.loads(l)['id'] == pid][0]
 wt = f"/tmp/wt-{pid}"
 out = f"/tmp/seed-{pid}"
@@ -19,7 +20,7 @@ TASK: produce {n} different, independent source changes to freedesktop/dbus (fil
   (c) the breakage needs something specific to manifest: an unusual input, a boundary value, a particular multi-step sequence of operations, a fault at a particular point, or two cooperating sites that each look fine alone. NOT something ordinary use or the existing tests would expose at once. Think of the kind of subtle regression a real maintainer could introduce in a refactoring or "optimisation" and that code review could miss.
 Each change should be small (a few lines), realistic, and hit a *different* mechanism/part of the property from the others.
 
-For EACH change k = 1..{n} deliver a directory {out}/k/ containing:
+For EACH change deliver a directory {out}/k/ (k = {first}..{last}) containing:
   - patch.diff   : `git diff` of the change against your worktree HEAD (must apply with `git apply` at the repository root)
   - a demonstration: a small C program or test (demo.c plus a build+run script demo.sh taking the source tree root as $1 and the build dir as $2; or a shell script driving existing binaries) that exits non-zero / visibly FAILS with the change applied and exits 0 / PASSES on the unchanged tree. It may link against the built libraries in the build dir (e.g. libdbus-internal / libdbus-1, headers in the tree, config.h in the build dir) and may call internal functions.
   - README.md   : which part of the property it breaks, what exactly is needed for it to manifest, and the exact commands you ran (build, tests, demo with and without the change) with their observed outcomes.
